@@ -66,6 +66,8 @@ static inline void base(Scenario &s, VtmfWorld &w, const char *name) {
 static inline mpz_ptr newz(Scenario &s, const Z &v = 0) { mpz_ptr p = new mpz_t(); mpz_init_set(p, v.get_mpz_t()); s.cleanup.push_back([p] { mpz_clear(p); delete[] p; }); return p; }
 static inline void group_pubs(Scenario &s, BarnettSmartVTMF_dlog *v) { s.pub.push_back({"group.p", v->p}); s.pub.push_back({"group.q", v->q}); s.pub.push_back({"group.g", v->g}); s.pub.push_back({"commonkey.h", v->h}); }
 
+// class-level argument objects carry their own group (their PublishGroup text, mutated line by line elsewhere); the VTMF instance of the world is not an input of theirs
+static inline void drop_group_pubs(Scenario &s) { std::vector<std::pair<std::string, mpz_ptr> > k; for (auto &x : s.pub) if (x.first.compare(0, 6, "group.") != 0 && x.first != "commonkey.h") k.push_back(x); s.pub = k; }
 // random group element of the world's group as Z
 static inline Z rand_elem(Ctx &ctx, BarnettSmartVTMF_dlog *v) { return zpowm(Z(v->g), zrand_below(ctx, Z(v->q) - 2) + 2, Z(v->p)); }
 
@@ -202,9 +204,17 @@ static inline ScenarioP sc_stack_cutchoose(Ctx &ctx, bool cyclic) {
   stack_edits(*s, W);
   return s;
 }
+// argument vectors of the class-level shuffle / rotation arguments, built from the stacks at call time (edits change the stacks in place)
+struct PairVecs { std::vector<size_t> pi; std::vector<mpz_ptr> R; std::vector<std::pair<mpz_ptr, mpz_ptr> > e, E;
+  static mpz_ptr dup(mpz_srcptr x) { mpz_ptr t = new mpz_t(); mpz_init_set(t, x); return t; }
+  PairVecs(const TMCG_Stack<VTMF_Card> &s, const TMCG_Stack<VTMF_Card> &s2, const TMCG_StackSecret<VTMF_CardSecret> *ss) {
+    for (size_t i = 0; i < s.size(); i++) { if (ss) { pi.push_back((*ss)[i].first); R.push_back(dup((*ss)[(*ss)[i].first].second.r)); }
+      e.push_back(std::make_pair(dup(s[i].c_1), dup(s[i].c_2))); E.push_back(std::make_pair(dup(s2[i].c_1), dup(s2[i].c_2))); } }
+  ~PairVecs() { for (auto x : R) { mpz_clear(x); delete[] x; } for (auto &x : e) { mpz_clear(x.first); mpz_clear(x.second); delete[] x.first; delete[] x.second; } for (auto &x : E) { mpz_clear(x.first); mpz_clear(x.second); delete[] x.first; delete[] x.second; } }
+};
 static inline unsigned long pick_le(Ctx &ctx, const GroupSpec &g, BarnettSmartVTMF_dlog *v) { unsigned long qb = mpz_sizeinbase(v->q, 2); unsigned long maxle = (qb - 64) / 2; if (maxle > TMCG_GROTH_L_E) maxle = TMCG_GROTH_L_E; return ctx.c.coin() ? maxle : (unsigned long)ctx.c.range(8, maxle); }
-static inline ScenarioP sc_stack_groth(Ctx &ctx, bool interactive) {
-  auto s = std::make_shared<Scenario>(); StackWorld W = make_stack(ctx, *s, interactive ? "stack_groth_interactive" : "stack_groth_noninteractive", false, 0, ctx.thorough ? 64 : 12, false); s->interactive = interactive;
+static inline ScenarioP sc_stack_groth(Ctx &ctx, bool interactive, bool class_level = false) {
+  auto s = std::make_shared<Scenario>(); StackWorld W = make_stack(ctx, *s, class_level ? "groth_class_interactive" : interactive ? "stack_groth_interactive" : "stack_groth_noninteractive", false, 0, ctx.thorough ? 64 : 12, false); s->interactive = interactive;
   BarnettSmartVTMF_dlog *pv = W.w.pv(), *vv = W.w.vv(); unsigned long le = pick_le(ctx, W.w.g, pv); size_t cap = W.n + (size_t)ctx.c.range(0, 3);
   // the size arguments are lower bounds (CheckGroup accepts larger parameters): sometimes declare less than the real sizes
   unsigned long decl_F = W.w.g.fsize, decl_G = W.w.g.gsize; bool lower = ctx.c.prob(1, 3); if (lower) { decl_F -= (unsigned long)ctx.c.range(0, 64); decl_G -= (unsigned long)ctx.c.range(1, 40); }
@@ -219,7 +229,10 @@ static inline ScenarioP sc_stack_groth(Ctx &ctx, bool interactive) {
   for (size_t i = 0; i < 4; i++) s->ctor_lines_in_use.push_back(i); s->ctor_lines_in_use.push_back(4); s->ctor_lines_in_use.push_back(5); s->ctor_lines_in_use.push_back(7); for (size_t i = 0; i < W.n; i++) s->ctor_lines_in_use.push_back(8 + i);
   GrothVSSHE *vvs = *holder; (void)vvs;
   s->desc << " l_e=" << le << " cap=" << cap;
-  if (interactive) {
+  if (class_level) { drop_group_pubs(*s); // the plain interactive variant of the class (the TMCG wrappers use the public-coin variant)
+    s->prove = [=](std::istream &in, std::ostream &out) { PairVecs a(*W.s, *W.s2, W.ss); vp->Prove_interactive(a.pi, a.R, a.e, a.E, in, out); };
+    s->verify = [=](std::istream &in, std::ostream &out) { PairVecs a(*W.s, *W.s2, nullptr); return (*holder)->Verify_interactive(a.e, a.E, in, out); };
+  } else if (interactive) {
     s->prove = [=](std::istream &in, std::ostream &out) { W.Tp->TMCG_ProveStackEquality_Groth(*W.s, *W.s2, *W.ss, pv, vp, in, out); };
     s->verify = [=](std::istream &in, std::ostream &out) { return W.Tv->TMCG_VerifyStackEquality_Groth(*W.s, *W.s2, vv, *holder, in, out); };
   } else {
@@ -229,8 +242,8 @@ static inline ScenarioP sc_stack_groth(Ctx &ctx, bool interactive) {
   stack_edits(*s, W);
   return s;
 }
-static inline ScenarioP sc_stack_hoogh(Ctx &ctx, bool interactive) {
-  auto s = std::make_shared<Scenario>(); StackWorld W = make_stack(ctx, *s, interactive ? "stack_hoogh_interactive" : "stack_hoogh_noninteractive", true, 0, ctx.thorough ? 48 : 10, false); s->interactive = interactive;
+static inline ScenarioP sc_stack_hoogh(Ctx &ctx, bool interactive, bool class_level = false) {
+  auto s = std::make_shared<Scenario>(); StackWorld W = make_stack(ctx, *s, class_level ? "hoogh_class_interactive" : interactive ? "stack_hoogh_interactive" : "stack_hoogh_noninteractive", true, 0, ctx.thorough ? 48 : 10, false); s->interactive = interactive;
   BarnettSmartVTMF_dlog *pv = W.w.pv(), *vv = W.w.vv();
   HooghSchoenmakersSkoricVillegasVRHE *hp = s->own(new HooghSchoenmakersSkoricVillegasVRHE(pv->p, pv->q, pv->g, pv->h, W.w.g.fsize, W.w.g.gsize));
   std::stringstream pg; hp->PublishGroup(pg); s->ctor_text = pg.str();
@@ -238,7 +251,10 @@ static inline ScenarioP sc_stack_hoogh(Ctx &ctx, bool interactive) {
   s->cleanup.push_back([holder] { delete *holder; });
   { unsigned long F = W.w.g.fsize, G = W.w.g.gsize; s->rebuild_verifier = [holder, F, G](const std::string &t) { delete *holder; *holder = nullptr; std::istringstream in(t); *holder = new HooghSchoenmakersSkoricVillegasVRHE(in, F, G); }; }
   for (size_t i = 0; i < 4; i++) s->ctor_lines_in_use.push_back(i);
-  if (interactive) {
+  if (class_level) { drop_group_pubs(*s);
+    s->prove = [=](std::istream &in, std::ostream &out) { PairVecs a(*W.s, *W.s2, W.ss); size_t r = (W.ss->size() - (*W.ss)[0].first) % W.ss->size(); hp->Prove_interactive(r, a.R, a.e, a.E, in, out); };
+    s->verify = [=](std::istream &in, std::ostream &out) { PairVecs a(*W.s, *W.s2, nullptr); return (*holder)->Verify_interactive(a.e, a.E, in, out); };
+  } else if (interactive) {
     s->prove = [=](std::istream &in, std::ostream &out) { W.Tp->TMCG_ProveStackEquality_Hoogh(*W.s, *W.s2, *W.ss, pv, hp, in, out); };
     s->verify = [=](std::istream &in, std::ostream &out) { return W.Tv->TMCG_VerifyStackEquality_Hoogh(*W.s, *W.s2, vv, *holder, in, out); };
   } else {
@@ -347,6 +363,7 @@ static inline ScenarioP sc_rabin_stack(Ctx &ctx, bool cyclic) {
 
 typedef ScenarioP (*Builder)(Ctx &);
 struct Entry { const char *name; Builder make; };
+static const size_t REGISTRY_BASE = 27; // entries of the first version; later ones are visited by their own sub-properties
 static inline const std::vector<Entry> &scenario_registry() {
   static const std::vector<Entry> r = {
     {"key_nizk", [](Ctx &c) { return sc_key_nizk(c); }},
@@ -376,6 +393,9 @@ static inline const std::vector<Entry> &scenario_registry() {
     {"tmcg_cardsecret_rabin", [](Ctx &c) { return sc_rabin_cardsecret(c); }},
     {"stack_cutchoose_rabin_permutation", [](Ctx &c) { return sc_rabin_stack(c, false); }},
     {"stack_cutchoose_rabin_rotation", [](Ctx &c) { return sc_rabin_stack(c, true); }},
+    // appended after the first 27 (REGISTRY_BASE) entries so that saved replay files keep their meaning
+    {"groth_class_interactive", [](Ctx &c) { return sc_stack_groth(c, true, true); }},
+    {"hoogh_class_interactive", [](Ctx &c) { return sc_stack_hoogh(c, true, true); }},
   };
   return r;
 }
